@@ -576,6 +576,7 @@ Section JSchema.
     apply andb_prop in H1. destruct H1 as [H1 _]. apply andb_prop in H1. destruct H1 as [H1 Hf].
     apply andb_prop in H1. destruct H1 as [_ Hnd]. apply n_nodup_NoDup in Hnd.
     unfold json_msg_ok in H2. fold fps in H2.
+    apply andb_prop in H2. destruct H2 as [H2 _].
     apply andb_prop in H2. destruct H2 as [H2 Hino]. apply andb_prop in H2. destruct H2 as [H2 Hcross].
     apply andb_prop in H2. destruct H2 as [H2 Hshape]. apply andb_prop in H2. destruct H2 as [Hj Ht].
     apply bs_nodup_NoDup in Hj. apply bs_nodup_NoDup in Ht.
@@ -610,6 +611,16 @@ Section JSchema.
           destruct (find_by_some _ _ _ _ _ Hq) as (Hq1 & _ & Hq3).
           apply (NoDup_map_inj (fun p => fn_json (snd p)) fps); assumption. }
     intros p Hp Hino'. specialize (Hino p Hp). destruct (f_oneof (fst p)); [congruence|reflexivity].
+  Qed.
+  Lemma jschema_no_at_type (o : jopts) tid : (tid < length S)%nat ->
+    forall p, In p (rt_fields S nm tid) -> json_name o (snd p) <> s_at_type.
+  Proof.
+    intros Hlt p Hp. unfold json_schema_ok in Hschema.
+    apply andb_prop in Hschema. destruct Hschema as [_ H2]. rewrite forallb_forall in H2.
+    specialize (H2 tid ltac:(apply in_seq; lia)). unfold json_msg_ok in H2.
+    apply andb_prop in H2. destruct H2 as [_ Hat]. rewrite forallb_forall in Hat. specialize (Hat p Hp).
+    apply andb_prop in Hat. destruct Hat as [Hj Ht]. apply negb_true_iff in Hj, Ht.
+    unfold json_name. destruct (o_proto_names o); intros E; rewrite E, bs_eqb_refl in *; discriminate.
   Qed.
 End JSchema.
 
